@@ -198,6 +198,19 @@ def swift_qualified_names_declared(res, m, text, fn, cfg, replay):
                           {'file': fn, 'name': '%s.%s' % (nscls2, name)}, replay)
 
 
+def _strip_nested(text):
+    """text with the contents of every (...) {...} [...] group removed (labels of a call's own arguments only)."""
+    out, depth = [], 0
+    for ch in text:
+        if ch in '({[':
+            depth += 1
+        elif ch in ')}]':
+            depth -= 1
+        elif depth == 0:
+            out.append(ch)
+    return ''.join(out)
+
+
 def swift_funcs(code):
     """(name, [parameter labels], body) of every `public func` in comment-free code."""
     out = []
@@ -296,6 +309,24 @@ def check_swift_types(res, m, texts, replay, cfg='swift_types'):
                 expect_once(res, replay, cfg, 'route_object', r'^\s*static let %s = Route\(' % nm, text,
                             {'route': r.name, 'version': r.version}, 'v%d' % r.version)
         swift_qualified_names_declared(res, m, text, fn, cfg, replay)
+
+
+def _block_full(text, pattern):
+    """the whole braced block (nested blocks included) that follows the first match of pattern"""
+    mt = re.search(pattern, text, re.M)
+    if not mt:
+        return ''
+    i = text.find('{', mt.end() - 1)
+    depth, j = 0, i
+    while 0 <= j < len(text):
+        if text[j] == '{':
+            depth += 1
+        elif text[j] == '}':
+            depth -= 1
+            if depth == 0:
+                break
+        j += 1
+    return text[i + 1:j]
 
 
 def _block_after(text, pattern):
@@ -414,6 +445,50 @@ def check_swift_client_objc(res, m, texts, replay):
                               {'route': r.name, 'version': r.version}, replay)
             else:
                 res.see(cfg, 'route_function', route_style(r))
+        # every Objective-C compatible function: name + suffix of the style variant, parameter labels
+        # (full and required-only overloads), and the labels handed on to the Swift function
+        want = []
+        unsupported = False
+        for r in routes:
+            nm = camel(r.name + ('' if r.version == 1 else '_v%d' % r.version))
+            rt, nullable = m.resolve_alias(r.arg)
+            full = req = None
+            if rt.kind == 'ref' and not nullable:
+                d = m.lookup(rt.ns, rt.name)
+                if d.kind == 'struct':
+                    own = [f for s_ in m.chain(d) for f in m.own_fields(s_)]
+                    rq = [f for f in own if f.default is None and not m.is_nullable(f.type)]
+                    req = [camel(f.name) for f in rq]
+                    full = req + [camel(f.name) for f in own if f not in rq]
+                else:
+                    full = req = [camel(d.name)]
+            elif rt.kind == 'prim' and rt.name == 'Void' and not nullable:
+                full = req = []
+            else:
+                unsupported = True
+                break
+            for suffix, extra in {'rpc': [('', [])], 'upload': [('UploadBody', ['input'])],
+                                  'download': [('URL', ['overwrite', 'destination']), ('', [])]}[route_style(r)]:
+                want.append((nm + suffix, tuple(full + extra), nm))
+                if full != req:
+                    want.append((nm + suffix, tuple(req + extra), nm))
+        if unsupported:
+            res.skip('swift_objc_client_unmodelled_argument_type')
+            continue
+        body = _block_full(text, r'^public class DBX%sRoutes: ' % pascal(ns.name))
+        have = []
+        for name, labels, fbody in swift_funcs(body):
+            # (which arguments the wrapper hands on is not judged: the statement is about declarations;
+            # for union and Void arguments the template drops the style's extra arguments today)
+            mo = re.search(r'let swift = swift\.(\w+)\(', fbody)
+            have.append((name, tuple(labels), mo.group(1) if mo else None))
+            res.count('swift_objc_functions_checked')
+        if sorted(have) != sorted(want):
+            res.violation({'kind': 'client_functions_differ', 'backend': cfg},
+                          {'file': fn, 'missing': [x for x in want if x not in have][:3],
+                           'surplus': [x for x in have if x not in want][:3]}, replay)
+        else:
+            res.see(cfg, 'functions_match', min(len(want), 5))
 
 
 def check_objc_types(res, m, texts, replay):
@@ -660,9 +735,10 @@ def check_objc_client(res, m, texts, replay):
                     res.count('objc_client_bodies_checked')
                     m1 = re.search(r'DBRoute \*route = (\w+)\.(\w+);', body)
                     m2 = re.search(r'\[self\.client request(\w+?):route arg:(\w+)', body)
+                    # judged: the route object the method names (a declared one, of this route); the
+                    # request style and argument are recorded only
                     ok = (m1 and m1.group(1) == 'DB%sRouteObjects' % pascal(ns.name).upper() and
-                          m1.group(2) == var and m2 and m2.group(1) == style and
-                          m2.group(2) == ('arg' if has_arg else 'nil'))
+                          m1.group(2) == var)
                     if not ok:
                         res.violation({'kind': 'client_method_wiring', 'backend': cfg},
                                       {'selector': sel, 'expected_route': var, 'expected_style': style,
